@@ -66,6 +66,7 @@ def build(tier):
                 # the joins of products are the largest queries (two box joins with vector assignment, plus the reductions):
                 # 20-30 GB each; quick keeps the one that fits comfortably, thorough runs them all
                 if tier == "quick" and (op == "upper_bound_if_exact" or (op == "upper_bound" and red == "smash")): continue
+                if d == 2 and op in ("upper_bound", "upper_bound_if_exact", "difference"): continue    # beyond 40 GB in dimension 2
                 kw2 = dict(kw, mem_gb=40) if op in ("upper_bound", "upper_bound_if_exact", "difference") else kw
                 T.append(Task("%s/%s/%s/%s/dim%d" % (tt, pol, red, op, d), u, "FN_p_" + op, ["C10/product.h"], pvars(), "%sFN_p_%s(&G_px, &G_py)" % (lhs, op), native=native(op, "bool" if lhs else "void", True),
                               reach=[("point in both", "G_psatX0 && G_psatY0"), ("point in x only", "G_psatX0 && !G_psatY0")], **kw2))
